@@ -41,6 +41,7 @@ int main(int argc, char **argv) {
   int         me = world.rank();
   if (mode == "lines" || mode == "csv" || mode == "ndjson") {
     std::vector<std::string> paths{argv[2]};
+    for (int i = 3; i < argc; ++i) paths.push_back(argv[i]);      // further paths (files listed next to their directory, twice, ...)
     std::string              acc;
     size_t                   n = 0;
     auto flush = [&]() { if (!acc.empty()) { line("L " + std::to_string(me) + " :" + acc); acc.clear(); } };
